@@ -359,7 +359,8 @@ func (fr *Frame) appendBuiltin(ins ssa.Instruction, c *ssa.CallCommon, args []*V
 		fr.copyRange(et, dst, s.L[0], s.L[1])
 	}
 	fr.copyRange(et, add(dst, mul(s.L[1], es)), t.L[0], t.L[1])
-	fr.noteAlloc(ite(inplace, "0", mul(n, es)))
+	fr.noteAlloc(mul(t.L[1], es)) // appended elements (amortised growth of the runtime is trusted)
+	fr.st.ghost["$elems"] = vc.define("g_elems", "Int", add(fr.ghostGet("$elems"), t.L[1]))
 	return &Val{T: st, L: []string{dst, n, ite(inplace, s.L[2], newcap)}}
 }
 
@@ -446,7 +447,7 @@ func (fr *Frame) havocAssigns(assigns []Clause, scope map[string]*Val, old *Stat
 				fr.st.heap[k] = vc.fresh(k, "(Array Int "+leafByKey[k].Sort+")")
 				vc.staticFrame(fr.st.heap[k], old)
 			}
-			for _, g := range []string{"$alloc"} {
+			for _, g := range []string{"$alloc", "$elems"} {
 				fr.st.ghost[g] = vc.fresh("g_"+sanitize(g), "Int")
 			}
 			continue
